@@ -129,3 +129,11 @@ Lemma skip_joint_check_sites_ok : skip_joint_check_sites =
 Proof. reflexivity. Qed.
 Lemma helpers_taking_builder_options_ok : helpers_taking_builder_options = [].
 Proof. reflexivity. Qed.
+
+(* the gRPC layer above the builder: Server.ScatterRegion hands the scatterer - and so the builder - the region PD learnt
+   from heartbeats (leader, pending and down peers); the copy in the request is used only for a region PD does not know at
+   all.  A plan is only as good as the leader it was built for: a leader taken from the request can be behind an election,
+   which does not change the epoch *)
+Lemma skel_grpc_ScatterRegion_ok : skel_grpc_ScatterRegion =
+  [IfE "!s.isLocalRequest((getForwardedHost(ctx)))" [IfE "(s.getDelegateClient(ctx, (getForwardedHost(ctx))))#1 != nil" [Ret] []; Ret] []; IfE "(s.validateRequest(request.GetHeader())) != nil" [Ret] []; IfE "(s.GetRaftCluster()) == nil" [Ret] []; IfE "len(request.GetRegionsId()) > 0" [IfE "((s.GetRaftCluster()).GetRegionScatter().ScatterRegionsByID(request.GetRegionsId(), request.GetGroup(), int(request.GetRetryLimit())))#2 != nil" [Ret] []; IfE "len(((s.GetRaftCluster()).GetRegionScatter().ScatterRegionsByID(request.GetRegionsId(), request.GetGroup(), int(request.GetRetryLimit())))#1) > 0" [DeferE [Ret]] []; Ret] []; Call "GetRegion"; IfE "local3 == nil" [Call "GetRegion"; IfE "request.GetRegion() == nil" [Ret] []; Call "GetRegion"; Call "NewRegionInfo"] []; Call "Scatter"; IfE "((s.GetRaftCluster()).GetRegionScatter().Scatter(local3, request.GetGroup()))#1 != nil" [Ret] []; Ret].
+Proof. reflexivity. Qed.
